@@ -1386,4 +1386,80 @@ theorem find_filterRange (s : Bytes) (lim : Option Bytes) (m : Map) (hs : Sorted
   find_sub m _ (inRange (some s) lim) hs (sorted_sublist List.filter_sublist hs)
     (fun e => by simp [List.mem_filter]) k
 
+
+/-! ## `syncMergedIter`: where a source stands after a direction change -/
+
+/-- what is left of a forward stream positioned at the first key ≥ `k` once `k` itself is stepped over -/
+def dropKey (k : Bytes) : List E → List E
+  | [] => []
+  | e :: l => if e.1 == k then l else e :: l
+
+/-- backward → forward: a source whose `Seek(k)` walks `l` (and reports success exactly when it
+    stands on a key) is left walking `l` without `k` by `syncMergedIter` -/
+theorem syncOther_fwd {α : Type} [ItOps α] (o : α) (k : Bytes) (l : List E)
+    (hs : Stream (ItOps.seek o k).1 l)
+    (hok : (ItOps.seek o k).2 = (ItOps.key (ItOps.seek o k).1).isSome) :
+    Stream (syncOther o k true) (dropKey k l) := by
+  unfold syncOther
+  rcases hsk : ItOps.seek o k with ⟨o1, ok⟩
+  rw [hsk] at hs hok
+  simp only at hs hok
+  simp only [if_true]
+  cases l with
+  | nil =>
+    have hk : ItOps.key o1 = none := hs
+    simp only [hk, dropKey]
+    rw [if_neg (by simp)]
+    exact hs
+  | cons e l' =>
+    obtain ⟨hk, hv, hn⟩ := hs
+    simp only [hk, Option.isSome_some] at hok
+    subst hok
+    simp only [hk, Bool.true_and, dropKey]
+    by_cases he : e.1 = k
+    · subst he
+      simp only [beq_self_eq_true, if_true]
+      exact hn
+    · have h1 : (some e.1 == some k) = false := by simp [he]
+      have h2 : (e.1 == k) = false := by simp [he]
+      simp only [h1, h2, Bool.false_eq_true, if_false]
+      exact ⟨hk, hv, hn⟩
+
+theorem ldbit_seek_ok (it : LdbIt) (k : Bytes) :
+    (ItOps.seek it k).2 = (ItOps.key (ItOps.seek it k).1).isSome := by
+  show (LdbIt.seek it k).2 = ((LdbIt.seek it k).1.cur.map (·.1)).isSome
+  unfold LdbIt.seek
+  split
+  · rename_i i hi
+    have hlt : i < it.items.length := by
+      have := List.findIdx?_eq_some_iff_getElem.mp hi
+      exact this.1
+    simp [LdbIt.cur, hlt]
+  · simp [LdbIt.cur]
+
+theorem treapit_seek_ok (it : TreapIt) (k : Bytes) :
+    (ItOps.seek it k).2 = (ItOps.key (ItOps.seek it k).1).isSome := by
+  show (TreapIt.seek it k).2 = ((TreapIt.seek it k).1.cur.map (·.1)).isSome
+  unfold TreapIt.seek TreapIt.land
+  simp only []
+  split
+  · split <;> simp
+  · simp
+
+theorem cacheit_choose_ok (it : CacheIt) (f : Bool) :
+    (it.choose f).2 = (ItOps.key (it.choose f).1).isSome := by
+  show (it.choose f).2 = ((it.choose f).1.curKey).isSome
+  unfold CacheIt.choose
+  simp only []
+  split
+  · simp [CacheIt.curKey]
+  · rename_i h1 h2; simp [CacheIt.curKey, h1]
+  · rename_i h1 h2; simp [CacheIt.curKey, h2]
+  · rename_i h1 h2
+    split <;> simp [CacheIt.curKey, h1, h2]
+
+theorem cacheit_seek_ok (it : CacheIt) (k : Bytes) :
+    (ItOps.seek it k).2 = (ItOps.key (ItOps.seek it k).1).isSome :=
+  cacheit_choose_ok _ true
+
 end ElaVerif.Ffldb
